@@ -22,6 +22,30 @@ package main
 //	pubkeyCallbackSrc  NewGateway's PublicKeyCallback: the authorized_keys lookup and every return with the
 //	                condition of the innermost `if` around it
 //
+//
+// Added for the provenance of `internal`, the ssh server configuration, liveness and the key function:
+//
+//	internalParams  the parameter lists of HandleListener / HandleQUICListener / handleConnection / RegisterControl /
+//	                RegisterWorkConn in server/*.go (`internal bool` is a PARAMETER of each but the quic handler)
+//	internalIdents  every identifier `internal` in server/*.go with the function it stands in and its role: "param"
+//	                (the declaration in a parameter list), "use:param" (a use that resolves to such a parameter),
+//	                "assigned" (left-hand side of an assignment / define / inc-dec), "use:<what else it resolves to>"
+//	bypassIdents    the identifiers of the bypass condition with what they resolve to
+//	connBoolFuncs   every function of server/*.go that takes a net.Conn / net.Listener / net.Addr and returns bool
+//	                (something that could compute "is this connection internal" from the connection)
+//	workCfgCond     RegisterWorkConn: the condition of the `if` whose body puts the CONFIGURED verifier in charge
+//	sshCfgLits      every composite literal of type ssh.ServerConfig in client/ cmd/ pkg/ server/
+//	sshCfgWrites    every assignment to / literal key of an authentication field of ssh.ServerConfig (NoClientAuth,
+//	                NoClientAuthCallback, PasswordCallback, PublicKeyCallback, KeyboardInteractiveCallback,
+//	                GSSAPIWithMICConfig, MaxAuthTries) in pkg/ssh and server, with "func" or the value's source
+//	gwPermUses      every mention of `.Permissions` in pkg/ssh outside a type (what the tunnel server reads from the
+//	                permissions the ssh callbacks returned)
+//	gwClientCfgWrites  TunnelServer.Run: every assignment to a field of clientCfg (what overrides the command line)
+//	lastPingStores  every `.lastPing.Store(` call in server/*.go with the function (and "closure" if in a func literal)
+//	handlePingOrder Control.handlePing: plugin call, VerifyPing, the ifs, returns and lastPing.Store in source order
+//	authKeySrc      the statements of util.GetAuthKey
+//	authKeyUses     every call of util.GetAuthKey in pkg/auth with the function it stands in
+//
 // Fails ("BROKEN TIE") when an anchor is missing.
 
 import (
@@ -49,14 +73,299 @@ func agLeanStr(s string) string {
 	return "\"" + strings.NewReplacer("\\", "\\\\", "\"", "\\\"").Replace(s) + "\""
 }
 
+type pair = agPair
+
+type agPair struct{ a, b string }
+
+func agUniqPairs(ps []agPair) []agPair {
+	sort.Slice(ps, func(i, j int) bool {
+		if ps[i].a != ps[j].a {
+			return ps[i].a < ps[j].a
+		}
+		return ps[i].b < ps[j].b
+	})
+	var o []agPair
+	for i, p := range ps {
+		if i == 0 || p != ps[i-1] {
+			o = append(o, p)
+		}
+	}
+	return o
+}
+
+// the facts added in round 4 (see the header): one pass per file
+func agExtraFacts(fset *token.FileSet, f *ast.File, rel string, sshAuthFields map[string]bool,
+	valueKind func(ast.Expr) string, identRole func(*ast.Ident) string,
+	internalParams, internalIdents, bypassIdents, sshCfgWrites, gwClientCfgWrites, lastPingStores, authKeyUses *[]agPair,
+	connBoolFuncs, workCfgCond, sshCfgLits, gwPermUses, handlePingOrder, authKeySrc *[]string) {
+	inServer := strings.HasPrefix(rel, "server/")
+	inSSH := strings.HasPrefix(rel, "pkg/ssh/")
+	fieldList := func(fl *ast.FieldList) string {
+		if fl == nil {
+			return ""
+		}
+		var parts []string
+		for _, fd := range fl.List {
+			var ns []string
+			for _, n := range fd.Names {
+				ns = append(ns, n.Name)
+			}
+			t := agSrc(fset, fd.Type)
+			if len(ns) > 0 {
+				t = strings.Join(ns, ", ") + " " + t
+			}
+			parts = append(parts, t)
+		}
+		return strings.Join(parts, ", ")
+	}
+	for _, d := range f.Decls {
+		fd, ok := d.(*ast.FuncDecl)
+		if !ok {
+			continue
+		}
+		name := fd.Name.Name
+		if inServer {
+			switch name {
+			case "HandleListener", "HandleQUICListener", "handleConnection", "RegisterControl", "RegisterWorkConn":
+				*internalParams = append(*internalParams, agPair{name, fieldList(fd.Type.Params)})
+			}
+			// could this function compute a boolean from a connection?
+			results := fieldList(fd.Type.Results)
+			params := fieldList(fd.Type.Params)
+			if results == "bool" && (strings.Contains(params, "net.Conn") || strings.Contains(params, "net.Listener") ||
+				strings.Contains(params, "net.Addr")) {
+				*connBoolFuncs = append(*connBoolFuncs, name+"("+params+") bool")
+			}
+		}
+		if fd.Body == nil {
+			continue
+		}
+		// selector fields and literal keys are not variables
+		notVar := map[*ast.Ident]bool{}
+		assigned := map[*ast.Ident]bool{}
+		inLit := map[ast.Node]bool{}
+		ast.Inspect(fd, func(n ast.Node) bool {
+			switch n := n.(type) {
+			case *ast.SelectorExpr:
+				notVar[n.Sel] = true
+			case *ast.KeyValueExpr:
+				if id, ok := n.Key.(*ast.Ident); ok {
+					notVar[id] = true
+				}
+			case *ast.AssignStmt:
+				for _, l := range n.Lhs {
+					if id, ok := l.(*ast.Ident); ok {
+						assigned[id] = true
+					}
+				}
+			case *ast.IncDecStmt:
+				if id, ok := n.X.(*ast.Ident); ok {
+					assigned[id] = true
+				}
+			case *ast.FuncLit:
+				ast.Inspect(n.Body, func(m ast.Node) bool {
+					if m != nil {
+						inLit[m] = true
+					}
+					return true
+				})
+				// a func literal taking a connection and returning bool counts too
+				if inServer && fieldList(n.Type.Results) == "bool" {
+					params := fieldList(n.Type.Params)
+					if strings.Contains(params, "net.Conn") || strings.Contains(params, "net.Listener") || strings.Contains(params, "net.Addr") {
+						*connBoolFuncs = append(*connBoolFuncs, name+": func("+params+") bool")
+					}
+				}
+			}
+			return true
+		})
+		ast.Inspect(fd, func(n ast.Node) bool {
+			switch n := n.(type) {
+			case *ast.Ident:
+				if inServer && n.Name == "internal" && !notVar[n] {
+					role := identRole(n)
+					switch {
+					case role == "decl":
+						role = "param"
+					case assigned[n]:
+						role = "assigned"
+					default:
+						role = "use:" + role
+					}
+					*internalIdents = append(*internalIdents, agPair{name, role})
+				}
+			case *ast.IfStmt:
+				if rel == "server/service.go" {
+					for _, st := range n.Body.List {
+						as, ok := st.(*ast.AssignStmt)
+						if !ok || len(as.Rhs) != 1 {
+							continue
+						}
+						switch {
+						case name == "RegisterControl" && agSrc(fset, as.Rhs[0]) == "auth.AlwaysPassVerifier":
+							ast.Inspect(n.Cond, func(m ast.Node) bool {
+								if sel, ok := m.(*ast.SelectorExpr); ok {
+									// the root of a selector chain is the variable
+									x := sel.X
+									for {
+										if s2, ok := x.(*ast.SelectorExpr); ok {
+											x = s2.X
+											continue
+										}
+										break
+									}
+									if id, ok := x.(*ast.Ident); ok {
+										*bypassIdents = append(*bypassIdents, agPair{id.Name, identRole(id)})
+									}
+									return false
+								}
+								if id, ok := m.(*ast.Ident); ok {
+									*bypassIdents = append(*bypassIdents, agPair{id.Name, identRole(id)})
+								}
+								return true
+							})
+						case name == "RegisterWorkConn" && agSrc(fset, as.Lhs[0]) == "authVerifier" &&
+							agSrc(fset, as.Rhs[0]) == "svr.authVerifier":
+							*workCfgCond = append(*workCfgCond, agSrc(fset, n.Cond))
+						}
+					}
+				}
+			case *ast.CompositeLit:
+				if n.Type != nil && strings.HasSuffix(agSrc(fset, n.Type), "ssh.ServerConfig") {
+					*sshCfgLits = append(*sshCfgLits, rel+": "+agSrc(fset, n))
+				}
+			case *ast.KeyValueExpr:
+				if id, ok := n.Key.(*ast.Ident); ok && (inSSH || inServer) && sshAuthFields[id.Name] {
+					*sshCfgWrites = append(*sshCfgWrites, agPair{rel + " literal " + id.Name, valueKind(n.Value)})
+				}
+			case *ast.AssignStmt:
+				for i, l := range n.Lhs {
+					if i >= len(n.Rhs) {
+						break
+					}
+					if sel, ok := l.(*ast.SelectorExpr); ok {
+						if (inSSH || inServer) && sshAuthFields[sel.Sel.Name] {
+							*sshCfgWrites = append(*sshCfgWrites, agPair{rel + " " + agSrc(fset, l), valueKind(n.Rhs[i])})
+						}
+						if rel == "pkg/ssh/server.go" && name == "Run" && strings.HasPrefix(agSrc(fset, l), "clientCfg.") {
+							*gwClientCfgWrites = append(*gwClientCfgWrites, agPair{agSrc(fset, l), agSrc(fset, n.Rhs[i])})
+						}
+					}
+				}
+			case *ast.CallExpr:
+				fn := agSrc(fset, n.Fun)
+				if inServer && strings.HasSuffix(fn, ".lastPing.Store") {
+					where := name
+					if inLit[n] {
+						where += " (closure)"
+					}
+					*lastPingStores = append(*lastPingStores, agPair{where, agSrc(fset, n)})
+				}
+				if strings.HasPrefix(rel, "pkg/auth/") && fn == "util.GetAuthKey" {
+					*authKeyUses = append(*authKeyUses, agPair{name, agSrc(fset, n)})
+				}
+			}
+			return true
+		})
+		if inSSH {
+			// mentions of `.Permissions` as a value (not `ssh.Permissions`, the type)
+			var stack []ast.Node
+			ast.Inspect(fd, func(n ast.Node) bool {
+				if n == nil {
+					stack = stack[:len(stack)-1]
+					return true
+				}
+				stack = append(stack, n)
+				sel, ok := n.(*ast.SelectorExpr)
+				if !ok || sel.Sel.Name != "Permissions" || agSrc(fset, sel.X) == "ssh" {
+					return true
+				}
+				// the outermost selector / index chain this mention is part of
+				top := ast.Node(sel)
+				for i := len(stack) - 2; i >= 0; i-- {
+					switch p := stack[i].(type) {
+					case *ast.SelectorExpr:
+						top = p
+						continue
+					case *ast.IndexExpr:
+						if p.X == top {
+							top = p
+							continue
+						}
+					}
+					break
+				}
+				*gwPermUses = append(*gwPermUses, name+": "+agSrc(fset, top))
+				return true
+			})
+		}
+		if rel == "server/control.go" && name == "handlePing" {
+			ast.Inspect(fd.Body, func(n ast.Node) bool {
+				switch n := n.(type) {
+				case *ast.IfStmt:
+					*handlePingOrder = append(*handlePingOrder, "if "+agSrc(fset, n.Cond))
+				case *ast.ReturnStmt:
+					*handlePingOrder = append(*handlePingOrder, "return")
+				case *ast.CallExpr:
+					fn := agSrc(fset, n.Fun)
+					switch {
+					case strings.HasSuffix(fn, "pluginManager.Ping"):
+						*handlePingOrder = append(*handlePingOrder, "pluginManager.Ping")
+					case strings.HasSuffix(fn, ".VerifyPing"):
+						*handlePingOrder = append(*handlePingOrder, fn)
+					case strings.HasSuffix(fn, ".lastPing.Store"):
+						*handlePingOrder = append(*handlePingOrder, "lastPing.Store")
+					}
+				}
+				return true
+			})
+		}
+		if rel == "pkg/util/util/util.go" && name == "GetAuthKey" {
+			*authKeySrc = append(*authKeySrc, "func("+fieldList(fd.Type.Params)+") ("+fieldList(fd.Type.Results)+")")
+			for _, st := range fd.Body.List {
+				*authKeySrc = append(*authKeySrc, agSrc(fset, st))
+			}
+		}
+	}
+}
+
 func genAuthGateFacts(repo, out string) error {
 	fset := token.NewFileSet()
-	type pair struct{ a, b string }
 	var internalCalls, aapWrites []pair
 	var aapReads, noClientAuth, alwaysPassRefs, putConn []string
 	var sshListenerRefs, gwListenerUses, gwRunCalls []string
 	var gwPutConns, pubkeyCallback []pair
 	bypass := []string{}
+	var internalParams, internalIdents, bypassIdents, sshCfgWrites, gwClientCfgWrites, lastPingStores, authKeyUses []pair
+	var connBoolFuncs, workCfgCond, sshCfgLits, gwPermUses, handlePingOrder, authKeySrc []string
+	sshAuthFields := map[string]bool{"NoClientAuth": true, "NoClientAuthCallback": true, "PasswordCallback": true,
+		"PublicKeyCallback": true, "KeyboardInteractiveCallback": true, "GSSAPIWithMICConfig": true, "MaxAuthTries": true}
+	valueKind := func(e ast.Expr) string {
+		if _, ok := e.(*ast.FuncLit); ok {
+			return "func"
+		}
+		return agSrc(fset, e)
+	}
+	// what an identifier resolves to (go/parser's file-level resolution)
+	identRole := func(id *ast.Ident) string {
+		if id.Obj == nil {
+			return "unresolved"
+		}
+		switch d := id.Obj.Decl.(type) {
+		case *ast.Field:
+			for _, n := range d.Names {
+				if n == id {
+					return "decl"
+				}
+			}
+			return "param"
+		case *ast.AssignStmt:
+			return "local " + agSrc(fset, d)
+		case *ast.ValueSpec:
+			return "var " + agSrc(fset, d)
+		}
+		return fmt.Sprintf("%T", id.Obj.Decl)
+	}
 
 	// source text of the innermost enclosing call / binary expression / key-value / field of the node on top
 	context := func(stack []ast.Node) string {
@@ -88,6 +397,9 @@ func genAuthGateFacts(repo, out string) error {
 			if err != nil {
 				return err
 			}
+			agExtraFacts(fset, f, rel, sshAuthFields, valueKind, identRole, &internalParams, &internalIdents, &bypassIdents,
+				&sshCfgWrites, &gwClientCfgWrites, &lastPingStores, &authKeyUses, &connBoolFuncs, &workCfgCond, &sshCfgLits,
+				&gwPermUses, &handlePingOrder, &authKeySrc)
 			written := map[ast.Node]bool{}
 			var stack []ast.Node
 			ast.Inspect(f, func(n ast.Node) bool {
@@ -251,7 +563,17 @@ func genAuthGateFacts(repo, out string) error {
 			return ps[i].b < ps[j].b
 		})
 	}
+	if len(internalParams) == 0 || len(internalIdents) == 0 || len(bypassIdents) == 0 || len(sshCfgLits) == 0 ||
+		len(lastPingStores) == 0 || len(handlePingOrder) == 0 || len(authKeySrc) == 0 || len(authKeyUses) == 0 {
+		return fmt.Errorf("anchors missing: internalParams %d internalIdents %d bypassIdents %d sshCfgLits %d lastPingStores %d handlePingOrder %d authKeySrc %d authKeyUses %d",
+			len(internalParams), len(internalIdents), len(bypassIdents), len(sshCfgLits), len(lastPingStores),
+			len(handlePingOrder), len(authKeySrc), len(authKeyUses))
+	}
 	sortPairs(internalCalls)
+	sortPairs(internalParams)
+	sortPairs(sshCfgWrites)
+	sortPairs(lastPingStores)
+	sortPairs(authKeyUses)
 	sortPairs(aapWrites)
 	sortPairs(gwPutConns)
 	uniq := func(xs []string) []string {
@@ -299,6 +621,19 @@ func genAuthGateFacts(repo, out string) error {
 	wp("gwPutConns", gwPutConns)
 	ws("gwRunCalls", gwRunCalls)
 	wp("pubkeyCallbackSrc", pubkeyCallback)
+	wp("internalParams", internalParams)
+	wp("internalIdents", agUniqPairs(internalIdents))
+	wp("bypassIdents", bypassIdents)
+	ws("connBoolFuncs", uniq(connBoolFuncs))
+	ws("workCfgCond", workCfgCond)
+	ws("sshCfgLits", uniq(sshCfgLits))
+	wp("sshCfgWrites", sshCfgWrites)
+	ws("gwPermUses", uniq(gwPermUses))
+	wp("gwClientCfgWrites", gwClientCfgWrites)
+	wp("lastPingStores", lastPingStores)
+	ws("handlePingOrder", handlePingOrder)
+	ws("authKeySrc", authKeySrc)
+	wp("authKeyUses", authKeyUses)
 	b.WriteString("end Frp.Gen.AuthGateFacts\n")
 	return os.WriteFile(filepath.Join(out, "AuthGateFacts.lean"), []byte(b.String()), 0o644)
 }
